@@ -82,7 +82,11 @@ int main(int argc, char **argv) {
     printf("define rc=%d %s\n", rc, b->error_message());
     Conf cf; cf.la = atoi(argv[4]); cf.one = atoi(argv[5]); cf.cost = atoi(argv[6]); cf.rec = atoi(argv[7]); cf.dbg = atoi(argv[8]);
     yaep_verif.track = 1;
+    if (argc > 9) cf.match = atoi(argv[9]);
+    if (getenv("RECLIMIT")) yaep_verif.rec_limit = atol(getenv("RECLIMIT"));
     Outcome o = runParse(*b, cs.inputs[atoi(argv[3])], cf);
+    for (int i = 0; i < o.hook.n_rec && i < YAEP_VERIF_MAX_REC; i++) printf("recovery %d: err_tok=%d pops=%ld found=%d back_set=%d behind=%d ahead=%d\n", i, o.hook.rec[i].err_tok, o.hook.rec[i].pops, o.hook.rec[i].found, o.hook.rec[i].back_set, o.hook.rec[i].behind, o.hook.rec[i].ahead);
+    printf("explosion=%d\n", o.hook.rec_explosion);
     printf("%s\nhooks: reuse=%d copy=%d reuse_of_copied=%d skipped_origin=%d\n", o.str().c_str(), o.hook.n_reuse, o.hook.n_copy, o.hook.n_reuse_of_copied, o.hook.n_skipped_origin);
     return 0;
   }
